@@ -7,28 +7,311 @@ import Mathlib.Tactic.Linarith
 -/
 namespace Genjax.Seed
 
+/-! ### basic facts about the free algebra of key paths -/
+
+/-- structural depth of a key path -/
+def KP.depth : KP → Nat
+  | .root => 0
+  | .L k => k.depth + 1
+  | .R k => k.depth + 1
+  | .fold k _ => k.depth + 1
+
+theorem KP.under_refl (k : KP) : KP.under k k = true := by
+  cases k <;> simp [KP.under]
+
+theorem KP.under_L (a k : KP) (h : KP.under a k = true) : KP.under a (.L k) = true := by
+  simp [KP.under, h]
+
+theorem KP.under_R (a k : KP) (h : KP.under a k = true) : KP.under a (.R k) = true := by
+  simp [KP.under, h]
+
+theorem KP.under_fold (a k : KP) (j : Nat) (h : KP.under a k = true) :
+    KP.under a (.fold k j) = true := by
+  simp [KP.under, h]
+
+theorem KP.under_eq_or_lt {a b : KP} (h : KP.under a b = true) : a = b ∨ a.depth < b.depth := by
+  induction b with
+  | root => left; simpa [KP.under] using h
+  | L k ih =>
+    simp only [KP.under, Bool.or_eq_true, beq_iff_eq] at h
+    rcases h with h | h
+    · exact Or.inl h
+    · right; rcases ih h with h' | h'
+      · subst h'; simp [KP.depth]
+      · simp only [KP.depth]; omega
+  | R k ih =>
+    simp only [KP.under, Bool.or_eq_true, beq_iff_eq] at h
+    rcases h with h | h
+    · exact Or.inl h
+    · right; rcases ih h with h' | h'
+      · subst h'; simp [KP.depth]
+      · simp only [KP.depth]; omega
+  | fold k j ih =>
+    simp only [KP.under, Bool.or_eq_true, beq_iff_eq] at h
+    rcases h with h | h
+    · exact Or.inl h
+    · right; rcases ih h with h' | h'
+      · subst h'; simp [KP.depth]
+      · simp only [KP.depth]; omega
+
+theorem KP.under_depth_le {a b : KP} (h : KP.under a b = true) : a.depth ≤ b.depth := by
+  rcases KP.under_eq_or_lt h with h' | h'
+  · subst h'; exact Nat.le_refl _
+  · omega
+
+theorem KP.not_under_of_depth_lt {a b : KP} (h : b.depth < a.depth) : KP.under a b = false := by
+  cases hu : KP.under a b with
+  | false => rfl
+  | true => have := KP.under_depth_le hu; omega
+
+theorem KP.under_antisymm {a b : KP} (h1 : KP.under a b = true) (h2 : KP.under b a = true) :
+    a = b := by
+  rcases KP.under_eq_or_lt h1 with h | h
+  · exact h
+  · have := KP.under_depth_le h2; omega
+
+theorem KP.under_trans {a b c : KP} (h1 : KP.under a b = true) (h2 : KP.under b c = true) :
+    KP.under a c = true := by
+  induction c with
+  | root =>
+    have : b = .root := by simpa [KP.under] using h2
+    subst this; exact h1
+  | L k ih =>
+    simp only [KP.under, Bool.or_eq_true, beq_iff_eq] at h2
+    rcases h2 with h | h
+    · subst h; exact h1
+    · exact KP.under_L _ _ (ih h)
+  | R k ih =>
+    simp only [KP.under, Bool.or_eq_true, beq_iff_eq] at h2
+    rcases h2 with h | h
+    · subst h; exact h1
+    · exact KP.under_R _ _ (ih h)
+  | fold k j ih =>
+    simp only [KP.under, Bool.or_eq_true, beq_iff_eq] at h2
+    rcases h2 with h | h
+    · subst h; exact h1
+    · exact KP.under_fold _ _ _ (ih h)
+
+/-- two ancestors of a common node are comparable -/
+theorem KP.under_comparable {a b x : KP} (ha : KP.under a x = true) (hb : KP.under b x = true) :
+    KP.under a b = true ∨ KP.under b a = true := by
+  induction x with
+  | root =>
+    have h1 : a = .root := by simpa [KP.under] using ha
+    have h2 : b = .root := by simpa [KP.under] using hb
+    subst h1 h2; left; rfl
+  | L k ih =>
+    simp only [KP.under, Bool.or_eq_true, beq_iff_eq] at ha hb
+    rcases ha with ha | ha <;> rcases hb with hb | hb
+    · subst ha hb; exact Or.inl (KP.under_refl _)
+    · subst ha; exact Or.inr (KP.under_L _ _ hb)
+    · subst hb; exact Or.inl (KP.under_L _ _ ha)
+    · exact ih ha hb
+  | R k ih =>
+    simp only [KP.under, Bool.or_eq_true, beq_iff_eq] at ha hb
+    rcases ha with ha | ha <;> rcases hb with hb | hb
+    · subst ha hb; exact Or.inl (KP.under_refl _)
+    · subst ha; exact Or.inr (KP.under_R _ _ hb)
+    · subst hb; exact Or.inl (KP.under_R _ _ ha)
+    · exact ih ha hb
+  | fold k j ih =>
+    simp only [KP.under, Bool.or_eq_true, beq_iff_eq] at ha hb
+    rcases ha with ha | ha <;> rcases hb with hb | hb
+    · subst ha hb; exact Or.inl (KP.under_refl _)
+    · subst ha; exact Or.inr (KP.under_fold _ _ _ hb)
+    · subst hb; exact Or.inl (KP.under_fold _ _ _ ha)
+    · exact ih ha hb
+
+/-- neither key is an ancestor of (or equal to) the other: the two subtrees are disjoint -/
+def Incomp (a b : KP) : Prop := KP.under a b = false ∧ KP.under b a = false
+
+theorem Incomp.symm {a b : KP} (h : Incomp a b) : Incomp b a := ⟨h.2, h.1⟩
+
+theorem Incomp.ne {a b : KP} (h : Incomp a b) : a ≠ b := by
+  intro e; subst e; have := h.1; rw [KP.under_refl] at this; exact Bool.noConfusion this
+
+/-- disjoint subtrees: descendants of incomparable nodes are incomparable -/
+theorem Incomp.mono {a b e f : KP} (h : Incomp a b) (he : KP.under a e = true)
+    (hf : KP.under b f = true) : Incomp e f := by
+  constructor
+  · cases hu : KP.under e f with
+    | false => rfl
+    | true =>
+      exfalso
+      rcases KP.under_comparable (KP.under_trans he hu) hf with h' | h'
+      · rw [h.1] at h'; exact Bool.noConfusion h'
+      · rw [h.2] at h'; exact Bool.noConfusion h'
+  · cases hu : KP.under f e with
+    | false => rfl
+    | true =>
+      exfalso
+      rcases KP.under_comparable he (KP.under_trans hf hu) with h' | h'
+      · rw [h.1] at h'; exact Bool.noConfusion h'
+      · rw [h.2] at h'; exact Bool.noConfusion h'
+
+theorem incomp_R_L (k : KP) : Incomp (.R k) (.L k) := by
+  constructor
+  · have : KP.under (.R k) k = false := KP.not_under_of_depth_lt (by simp [KP.depth])
+    simp [KP.under, this]
+  · have : KP.under (.L k) k = false := KP.not_under_of_depth_lt (by simp [KP.depth])
+    simp [KP.under, this]
+
+theorem incomp_fold (k : KP) {j j' : Nat} (h : j ≠ j') : Incomp (.fold k j) (.fold k j') := by
+  constructor
+  · have : KP.under (.fold k j) k = false := KP.not_under_of_depth_lt (by simp [KP.depth])
+    simp [KP.under, this, h]
+  · have : KP.under (.fold k j') k = false := KP.not_under_of_depth_lt (by simp [KP.depth])
+    simp [KP.under, this, Ne.symm h]
+
+/-! ### the invariant of the key-threading interpreter -/
+
+/-- invariant of a run started at running key `k` with result `r = (handed-out keys, final key)` -/
+structure Inv (k : KP) (r : List (Nat × List Nat × KP) × KP) : Prop where
+  /-- the final running key is below the initial one -/
+  fin : KP.under k r.2 = true
+  /-- every handed-out key is strictly below the initial running key -/
+  below : ∀ e ∈ r.1, KP.under k e.2.2 = true ∧ e.2.2 ≠ k
+  /-- every handed-out key is incomparable with the final running key -/
+  sep : ∀ e ∈ r.1, Incomp e.2.2 r.2
+  /-- handed-out keys are pairwise incomparable -/
+  pw : r.1.Pairwise fun e f => Incomp e.2.2 f.2.2
+
+theorem ne_of_under_R {k e : KP} (h : KP.under (.R k) e = true) : e ≠ k := by
+  intro he; subst he
+  have := KP.under_depth_le h
+  simp [KP.depth] at this
+
+mutual
+  theorem Stmt.inv : ∀ (s : Stmt) (k : KP) (it : List Nat), Inv k (s.keys k it)
+    | .site id, k, it => by
+      simp only [Stmt.keys]
+      refine ⟨KP.under_L _ _ (KP.under_refl k), ?_, ?_, ?_⟩
+      · intro e he
+        simp only [List.mem_singleton] at he
+        subst he
+        exact ⟨KP.under_R _ _ (KP.under_refl k), ne_of_under_R (KP.under_refl _)⟩
+      · intro e he
+        simp only [List.mem_singleton] at he
+        subst he
+        exact incomp_R_L k
+      · simp
+    | .cond taken, k, it => by
+      have ih := Prog.inv taken (.R k) it
+      simp only [Stmt.keys]
+      refine ⟨KP.under_L _ _ (KP.under_refl k), ?_, ?_, ih.pw⟩
+      · intro e he
+        have h := (ih.below e he).1
+        exact ⟨KP.under_trans (KP.under_R _ _ (KP.under_refl k)) h, ne_of_under_R h⟩
+      · intro e he
+        exact (incomp_R_L k).mono (ih.below e he).1 (KP.under_refl _)
+    | .scan body n, k, it => by
+      have ih := fun j => Prog.inv body (.fold (.R k) j) (it ++ [j])
+      have hb : ∀ j, ∀ e ∈ (body.keys (.fold (.R k) j) (it ++ [j])).1,
+          KP.under (.fold (.R k) j) e.2.2 = true := fun j e he => ((ih j).below e he).1
+      have hR : ∀ j, ∀ e ∈ (body.keys (.fold (.R k) j) (it ++ [j])).1,
+          KP.under (.R k) e.2.2 = true := fun j e he =>
+        KP.under_trans (KP.under_fold _ _ _ (KP.under_refl _)) (hb j e he)
+      simp only [Stmt.keys]
+      refine ⟨KP.under_L _ _ (KP.under_refl k), ?_, ?_, ?_⟩
+      · intro e he
+        simp only [List.mem_flatMap, List.mem_range] at he
+        obtain ⟨j, _, he⟩ := he
+        have h := hR j e he
+        exact ⟨KP.under_trans (KP.under_R _ _ (KP.under_refl k)) h, ne_of_under_R h⟩
+      · intro e he
+        simp only [List.mem_flatMap, List.mem_range] at he
+        obtain ⟨j, _, he⟩ := he
+        exact (incomp_R_L k).mono (hR j e he) (KP.under_refl _)
+      · rw [List.pairwise_flatMap]
+        refine ⟨fun j _ => (ih j).pw, ?_⟩
+        refine List.Pairwise.imp ?_ (List.pairwise_lt_range (n := n))
+        intro j j' hlt e he f hf
+        exact (incomp_fold (.R k) (Nat.ne_of_lt hlt)).mono (hb j e he) (hb j' f hf)
+    | .other, k, it => by
+      simp only [Stmt.keys]
+      exact ⟨KP.under_refl k, by simp, by simp, by simp⟩
+  theorem Prog.inv : ∀ (p : Prog) (k : KP) (it : List Nat), Inv k (p.keys k it)
+    | .nil, k, it => by
+      simp only [Prog.keys]
+      exact ⟨KP.under_refl k, by simp, by simp, by simp⟩
+    | .cons s rest, k, it => by
+      have ih1 := Stmt.inv s k it
+      have ih2 := Prog.inv rest (s.keys k it).2 it
+      simp only [Prog.keys]
+      refine ⟨KP.under_trans ih1.fin ih2.fin, ?_, ?_, ?_⟩
+      · intro e he
+        simp only [List.mem_append] at he
+        rcases he with he | he
+        · exact ih1.below e he
+        · obtain ⟨h1, h2⟩ := ih2.below e he
+          refine ⟨KP.under_trans ih1.fin h1, ?_⟩
+          intro hk
+          apply h2
+          rw [hk] at h1 ⊢
+          exact KP.under_antisymm ih1.fin h1
+      · intro e he
+        simp only [List.mem_append] at he
+        rcases he with he | he
+        · exact (ih1.sep e he).mono (KP.under_refl _) ih2.fin
+        · exact ih2.sep e he
+      · rw [List.pairwise_append]
+        refine ⟨ih1.pw, ih2.pw, ?_⟩
+        intro e he f hf
+        exact (ih1.sep e he).mono (KP.under_refl _) (ih2.below f hf).1
+end
+
+/-- members of a pairwise-incomparable list with different keys are incomparable -/
+theorem incomp_of_pairwise {l : List (Nat × List Nat × KP)}
+    (h : l.Pairwise fun e f => Incomp e.2.2 f.2.2) :
+    ∀ a ∈ l, ∀ b ∈ l, a.2.2 ≠ b.2.2 → Incomp a.2.2 b.2.2 := by
+  induction h with
+  | nil => intro a ha; simp at ha
+  | cons hx _ ih =>
+    intro a ha b hb hne
+    simp only [List.mem_cons] at ha hb
+    rcases ha with ha | ha <;> rcases hb with hb | hb
+    · subst ha hb; exact absurd rfl hne
+    · subst ha; exact hx b hb
+    · subst hb; exact (hx a ha).symm
+    · exact ih a ha b hb hne
+
+/-! ### the theorems -/
+
 /-- every key handed out by a run started with running key `k` lies strictly below `k`
     (it is `R` of a running key reached from `k` by `L` steps, or below such a key) and the final
     running key is reached from `k` by `L` steps only -/
 theorem keys_below (p : Prog) (k : KP) (it : List Nat) :
-    (∀ e ∈ (p.keys k it).1, KP.under k e.2.2 = true ∧ e.2.2 ≠ k) ∧ KP.under k (p.keys k it).2 = true := by
-  sorry
+    (∀ e ∈ (p.keys k it).1, KP.under k e.2.2 = true ∧ e.2.2 ≠ k) ∧ KP.under k (p.keys k it).2 = true :=
+  ⟨(Prog.inv p k it).below, (Prog.inv p k it).fin⟩
 
 /-- C07: all sites of one run get pairwise distinct keys — sequences, nested scans, cond inside
     scan, scan inside cond, any depth, any scan lengths -/
 theorem siteKeys_nodup (p : Prog) : ((siteKeys p).map fun e => e.2.2).Nodup := by
-  sorry
+  unfold siteKeys List.Nodup
+  rw [List.pairwise_map]
+  exact (Prog.inv p .root []).pw.imp fun h => h.ne
 
 /-- stronger: no site key is an ancestor of another site key (so no site's stream is derived from
     another site's key by further splitting) -/
 theorem siteKeys_no_ancestor (p : Prog) (a b : Nat × List Nat × KP)
     (ha : a ∈ siteKeys p) (hb : b ∈ siteKeys p) (hne : a.2.2 ≠ b.2.2) :
-    KP.under a.2.2 b.2.2 = false := by
-  sorry
+    KP.under a.2.2 b.2.2 = false :=
+  (incomp_of_pairwise (Prog.inv p .root []).pw a ha b hb hne).1
 
 /-- the number of keys handed out = number of site executions -/
 theorem scan_site_count (id n : Nat) :
     (siteKeys (.cons (.scan (.cons (.site id) .nil) n) .nil)).length = n := by
-  sorry
+  have h : ∀ (f : Nat → List (Nat × List Nat × KP)), (∀ j, (f j).length = 1) →
+      ((List.range n).flatMap f).length = n := by
+    intro f hf
+    induction n with
+    | zero => rfl
+    | succ m ih => rw [List.range_succ, List.flatMap_append, List.length_append, ih]; simp [hf]
+  simp only [siteKeys, Prog.keys, Stmt.keys, List.append_nil]
+  exact h _ (fun j => rfl)
 
 end Genjax.Seed
+#print axioms Genjax.Seed.keys_below
+#print axioms Genjax.Seed.siteKeys_nodup
+#print axioms Genjax.Seed.siteKeys_no_ancestor
+#print axioms Genjax.Seed.scan_site_count
